@@ -203,3 +203,41 @@ func collisionCases() []*ProgCase {
 	_ = env
 	return out
 }
+
+// deepMismatchCases: two literals that agree for d levels of list / map /
+// object nesting and differ at the leaf (num vs str, plain vs optional
+// cannot be written as a literal), side by side where equal types are required.
+func deepMismatchCases() []*ProgCase {
+	var out []*ProgCase
+	env := bridge.NewEnv()
+	env.Put("b", ref.VBool(true))
+	for _, d := range []int{1, 2, 3, 5, 8, 13, 21, 30, 31, 32, 33, 34, 40, 47, 48, 49, 50, 64, 65} {
+		for style := 0; style < 2; style++ {
+			mk := func(leaf *ref.E) *ref.E {
+				e := leaf
+				for k := 0; k < d; k++ {
+					switch (k * (style + 1)) % 3 {
+					case 0:
+						e = ref.List(e)
+					case 1:
+						e = ref.Map([]*ref.E{ref.Str("k")}, []*ref.E{e})
+					default:
+						e = ref.Obj([]string{"f"}, []*ref.E{e})
+					}
+				}
+				return e
+			}
+			n1, n2, s1 := func() *ref.E { return mk(ref.Num("1", 1)) }, func() *ref.E { return mk(ref.Num("2", 2)) }, func() *ref.E { return mk(ref.Str("s")) }
+			progs := []*ref.E{
+				ref.List(n1(), s1()), ref.List(n1(), n2()), ref.Call("if", ref.Ident("b"), n1(), s1()), ref.Call("if", ref.Ident("b"), n1(), n2()),
+				ref.CallF(ref.FInfix, "==", n1(), s1()), ref.CallF(ref.FInfix, "==", n1(), n2()), ref.CallF(ref.FInfix, "==", n1(), n1()),
+				ref.Call("len", ref.Call("union", ref.List(n1()), ref.List(n2(), n1()))), ref.Call("union", ref.List(n1()), ref.List(s1())),
+				ref.Call("get", ref.List(n1()), ref.Num("3", 3), s1()), ref.Call("get", ref.List(n1()), ref.Num("3", 3), n2()),
+			}
+			for pi, e := range progs {
+				out = append(out, &ProgCase{ID: fmt.Sprintf("deep-mismatch/%d/%d/%d", d, style, pi), Src: ref.Render(e), E: e, Env: env})
+			}
+		}
+	}
+	return out
+}
